@@ -637,6 +637,9 @@ def run(ck):
     ck.rule('C01.e', 'set path order validate -> can-write -> serialise -> write(tail); no write on failing paths; the unchecked variant differs only by the validator; get reads the window set writes')
     ck.not_decided += ['callback-backed areas and callback validators (user code)', 'storage unchanged beyond the library\'s own writes']
     R = Regs(ck)
+    ck.rule('C01.h', 'a refused typed set / get / default leaves nothing behind in the table (no memo, cursor or mark on a refusing path): what a later call is answered does not depend on it')
+    from .regs import refusals_leave_no_trace
+    refusals_leave_no_trace(R, 'C01.h', ('register_setx', 'register_get', 'register_default'))
     distinct_enums(ck, R.u, 'C01.a', ('REG_TYPE_', 'REGV_TYPE_'), 'include/ufw/register-table.h')
     rule_macros(ck, R)
     sd = rule_a(ck, R)
